@@ -495,6 +495,7 @@ def run(ctx):
     C.log("[c01] tool chain %s %.0fs" % (tc["hash"], time.time() - t0))
     t0 = time.time()
     n = QUICK_N if ctx.tier == "quick" else 3000
+    n = int(os.environ.get("VERIF_C01_N", n))      # one-off larger batches (crash hunts) without the thorough tier
     if ctx.replay:
         r = json.load(open(ctx.replay))
         programs = [G.gen_program(r.get("gen_seed", ctx.seed), r["index"])] if "index" in r else []
